@@ -194,6 +194,48 @@ def config_kinds(fdname, pname, ann, default, file, line):
     return kinds
 
 
+def noneable_ctor_params(it, modq, cd):
+    """constructor parameters p stored as `self.p = p` and tested with `self.p is None` by some method of the class chain"""
+    stored, tested = set(), set()
+    q, c_ = modq, cd
+    while True:
+        for sub in ast.walk(c_):
+            if isinstance(sub, ast.Assign) and len(sub.targets) == 1 and isinstance(sub.targets[0], ast.Attribute) and U(sub.targets[0].value) == 'self' \
+                    and isinstance(sub.value, ast.Name) and sub.value.id == sub.targets[0].attr:
+                stored.add(sub.value.id)
+            if isinstance(sub, ast.Compare) and len(sub.ops) == 1 and isinstance(sub.ops[0], (ast.Is, ast.IsNot)) and isinstance(sub.left, ast.Attribute) \
+                    and U(sub.left.value) == 'self' and isinstance(sub.comparators[0], ast.Constant) and sub.comparators[0].value is None:
+                tested.add(sub.left.attr)
+        if c_.name == 'Module':
+            break
+        q, c_ = it.parent(q, c_)
+    return stored & tested
+
+
+def ctor_choices(it, world, modq, cd, cname, cparams, ini, static=None):
+    choices = []
+    ifd = ini[2]
+    ann = {a.arg: (U(a.annotation) if a.annotation is not None else None) for a in ifd.args.args}
+    sig = A.World.signature(ifd)
+    defaults = dict(zip(sig[0], sig[1]))
+    noneable = noneable_ctor_params(it, modq, cd)
+    for p in cparams:
+        if static is not None and p in static:
+            choices.append(['OpaqueV'])
+        elif isinstance(defaults.get(p), ast.Constant) and isinstance(defaults[p].value, str):
+            choices.append(['OpaqueV'])
+        else:
+            ks = config_kinds(cname, p, ann.get(p), defaults.get(p), world.mods[ini[0]].file, ifd.lineno)
+            # an unannotated constructor parameter is "int or tuple" only if the constructor broadcasts it
+            bc = any(isinstance(x, ast.Call) and U(x.func) == 'np.broadcast_to' and x.args and U(x.args[0]) == p for x in ast.walk(ifd))
+            if ann.get(p) is None and not bc and 'ShapeV' in ks:
+                ks = [k for k in ks if k != 'ShapeV']
+            if p in noneable and 'NoneV' not in ks:
+                ks = ks + ['NoneV']          # e.g. BatchNorm(momentum=None): `if self.momentum is None`
+            choices.append(ks)
+    return choices
+
+
 def argspec_coq(a):
     if a in ('ATensor', 'ATensor2', 'ALabel', 'AList'):
         return a
@@ -404,22 +446,7 @@ def extract():
                         first = False
                 choices.append([PYB_T, PYB_F])      # training
                 if meta['cparams']:
-                    ifd = ini[2]
-                    ann = {a.arg: (U(a.annotation) if a.annotation is not None else None) for a in ifd.args.args}
-                    sig = A.World.signature(ifd)
-                    defaults = dict(zip(sig[0], sig[1]))
-                    for p in meta['cparams']:
-                        if static is not None and p in static:
-                            choices.append(['OpaqueV'])
-                        elif isinstance(defaults.get(p), ast.Constant) and isinstance(defaults[p].value, str):
-                            choices.append(['OpaqueV'])
-                        else:
-                            ks = config_kinds(cname, p, ann.get(p), defaults.get(p), world.mods[ini[0]].file, ifd.lineno)
-                            # an unannotated constructor parameter is "int or tuple" only if the constructor broadcasts it
-                            bc = any(isinstance(x, ast.Call) and U(x.func) == 'np.broadcast_to' and x.args and U(x.args[0]) == p for x in ast.walk(ifd))
-                            if ann.get(p) is None and not bc and 'ShapeV' in ks:
-                                ks = [k for k in ks if k != 'ShapeV']
-                            choices.append(ks)
+                    choices += ctor_choices(it, world, modq, cd, cname, meta['cparams'], ini, static)
                 nrow = 0
                 for combo in itertools.product(*choices):
                     lrows.append({'name': "%s#%d" % (cn[2:], nrow), 'fn': cn[2:], 'args': list(combo),
@@ -440,6 +467,23 @@ def extract():
                     r_['param_free'] = not creates
                 lmeta.append({'coq': cn, 'class': cname, 'module': modq, 'param_free': not creates, 'params': meta['params'], 'fparams': meta['fparams'],
                               'cparams': meta['cparams'], 'static': static, 'labels': sorted(labels), 'rows': nrow})
+    # ---- stateful layers: classes whose forward changes attributes of self (BatchNorm: running statistics, counter) -------
+    srows, smeta = [], []
+    for cname, cd in world.mods['nn.layers'].classes.items():
+        r = it.run_layer_stateful('nn.layers', cname)
+        if r is None or not r['changes']:
+            continue
+        ci, cs = 'ls_%s_init' % cname, 'ls_%s_step' % cname
+        layer_defs.append((ci, r['init'], {'kind': 'stateful-init', 'module': 'nn.layers', 'name': cname, 'lines': r['lines'], 'params': r['cparams'], 'size': A.size(r['init'])}))
+        layer_defs.append((cs, r['step'], {'kind': 'stateful-step', 'module': 'nn.layers', 'name': cname, 'lines': r['lines'],
+                                          'params': r['fparams'] + ['training'] + ['self.' + a for a in r['attrs']], 'size': A.size(r['step'])}))
+        choices = ctor_choices(it, world, 'nn.layers', cd, cname, r['cparams'], r['init_fd'])
+        n = 0
+        for combo in itertools.product(*choices):
+            srows.append({'name': "%s#%d" % (cname, n), 'ctor': list(combo), 'init': ci, 'step': cs})
+            n += 1
+        smeta.append({'class': cname, 'init': ci, 'step': cs, 'attrs': r['attrs'], 'cparams': r['cparams'], 'fparams': r['fparams'], 'rows': n})
+    world.srows, world.smeta = srows, smeta
     return world, flags, rows, lrows, wmeta, mmeta, lmeta, layer_defs, dflt_cn
 
 
@@ -485,6 +529,10 @@ def emit(world, flags, rows, lrows, wmeta, mmeta, lmeta, layer_defs, dflt_cn):
     sc = [r for r in rows if r['kind'] == 'method' and r.get('scalar_operand')]
     out.append("(* rows of the operator overloads with a Python int / float / bool second operand; a Python scalar is not a valid")
     out.append("   operand of @ (functional.matmul rejects operands with fewer than two dimensions): those rows are listed apart *)")
+    out.append("(* layers with state (forward rebinds attributes of self): constructor configurations *)")
+    out.append("Definition stateful_rows : list slrow :=\n  [%s]." % ";\n   ".join(
+        'mkSL "%s" [%s] %s %s' % (r['name'], "; ".join(argspec_coq(a) for a in r['ctor']), r['init'], r['step']) for r in world.srows))
+    out.append("")
     out.append("Definition scalar_operand_rows : list oprow :=\n  [%s]." % ";\n   ".join(row(r) for r in sc if 'matmul' not in r['fn']))
     out.append("Definition matmul_scalar_rows : list oprow :=\n  [%s]." % ";\n   ".join(row(r) for r in sc if 'matmul' in r['fn']))
     out.append("")
@@ -503,7 +551,7 @@ def generate():
             'kernels': [{'coq': cn, 'module': m['module'], 'name': m['name'], 'params': m['params'], 'lines': m['lines'], 'size': m['size'], 'ret_arity': m.get('ret_arity')}
                         for cn, e, m in world.defs if m['kind'] == 'kernel'],
             'tfuns': [{'coq': cn, 'name': m['name'], 'params': m['params']} for cn, e, m in world.defs if m['kind'] == 'tfun'],
-            'wrappers': wmeta, 'methods': mmeta, 'layers': lmeta, 'tensor_helpers': getattr(world, 'helpers', []),
+            'wrappers': wmeta, 'methods': mmeta, 'layers': lmeta, 'stateful': world.smeta, 'stateful_rows': world.srows, 'tensor_helpers': getattr(world, 'helpers', []),
             'rows': [{'name': r['name'], 'fn': r['fn'], 'args': r['args']} for r in rows],
             'layer_rows': [{'name': r['name'], 'fn': r['fn'], 'args': r['args']} for r in lrows]}
     json.dump(info, open(os.path.join(common.ROOT, "work", "dtype.json"), "w"), indent=1, default=str)
